@@ -902,6 +902,17 @@ def c19(run):
         cases.append((prog, src))
     reqs = ['lint ' + hx(src) for _, src in cases]
     m, im = run.tie(reqs, proj=lint_proj, functional=True, desc=lambda i: {'program': cases[i][1]})
+    # the entry point the command line uses, called for program after program in ONE server process: each report is that of
+    # a fresh linter (nothing is remembered from one program to the next)
+    seqn = run.n(300, 5000)
+    cseq = common.serve([common.harness_bin(), 'serve'], ['clilint ' + hx(src) for _, src in cases[:seqn]], tag='c19cli')
+    for (prog, src), a, b in zip(cases[:seqn], cseq, im):
+        if b is None or a == 'skipped':
+            continue
+        run.case(('clilint', src), True, ndiags=0)
+        if (a == 'parseerr') != b.startswith('parseerr') or (a != 'parseerr' and lint_proj(a) != lint_proj(b)):
+            run.fail({'program': src, 'cli_entry_point_in_a_long_lived_process': a[:300], 'fresh_linter': b[:300]},
+                     'linting through the command line\'s entry point in a process that linted other programs before gives another report')
     # TREE level (trees no source text parses to): linted on both sides from the tree itself
     from . import trees
     pans = common.impl(['parse ' + hx(src) for _, src in cases[:run.n(200, 4000)]])
@@ -989,6 +1000,11 @@ def c20(run):
             src = texts.mutate(rng, progs.render(rng, io_program(rng)))
         stdin = rng.choice(['', 'one\ntwo\nthree\n', 'no newline', 'é\n\nΩ\n'])
         cases.append((src, stdin))
+    # programs full of constant assignments of every class (with and WITHOUT a poetic spelling: negative, non-finite, multi-line
+    # strings), so that `rrss lint` has reports with every shape of record to print
+    for _ in range(run.n(40, 600)):
+        cases.append((rock.Speller(rng, noise=0.02, comments=0.03, recase=0.1).program(strip_marks(lint_program(rng))), ''))
+    cases.append(('put -3 into x\nput 1 over 0 into y\nput "two\nlines" into z\nput -1 into x\n', ''))
     # characters that an editor, a shell or a "helpful" front end might normalise on the way from the FILE to the library:
     # typographic quotes and dashes, no-break and zero-width spaces, byte order mark, CR / CRLF / NEL line ends, tabs, NUL,
     # full-width forms, combining marks -- inside a string, a poetic string, a poetic number, a name, between tokens
@@ -1064,6 +1080,11 @@ def c20(run):
                             ok_ = False
                             break
                         pos = k + len(piece)
+                # one record per diagnostic: no output line carries two diagnostics, and the report ends with a line break
+                glued = [ln for ln in text.split('\n') if sum(ln.count(x['issue']) for x in {y['issue']: y for y in d}.values()) > 1]
+                if d and (glued or not text.endswith('\n')):
+                    run.fail({'program': src, 'library': d[:4], 'cli_stdout': text[:400]},
+                             '`rrss lint` does not print one record per diagnostic (two diagnostics on one line, or no final line break)')
                 if not ok_ or (not d and ('\n\t' in text or not text)):
                     run.fail({'program': src, 'library': d[:4], 'cli_stdout': text[:400]},
                              '`rrss lint` does not print the library\'s diagnostics (each line, issue and suggestion, in the library\'s order)')
